@@ -313,3 +313,184 @@ Proof.
   replace (stream_cond s lim off ep) with true; [reflexivity|].
   unfold stream_cond. lia.
 Qed.
+
+(* ----------------------------------------------------- C03: cache mode *)
+
+Definition same_position (s : stream) (off ep : N) : bool :=
+  (0 <? off) && (off =? s_top s) && (ep =? s_epoch s).
+
+Definition cache_scanned (lim : Z) (uf : bool) (s : stream) : list item :=
+  take (if uf then rec_limit lim else 1%Z) (rev (s_items s)).
+
+Definition cache_pick (lim : Z) (uf : bool) (filt : N -> bool) (s : stream) : option item :=
+  if uf then find (fun it => negb (filt (i_id it))) (cache_scanned lim uf s)
+  else hd_error (cache_scanned lim uf s).
+
+Lemma finish_cache_single : forall o i top ep off,
+  finish true true [mkPub o false i] [] top ep off = ROk true [mkItem o i] off ep.
+Proof. intros. unfold finish, merge, uniq. cbn. reflexivity. Qed.
+
+Lemma finish_cache_none : forall rc top ep off,
+  finish true rc [] [] top ep off = if rc then ROk true [] off ep else ROk false [] top ep.
+Proof. intros. unfold finish. cbn. destruct rc; [reflexivity|]. destruct top; reflexivity. Qed.
+
+Lemma hd_take : forall L (l : list item), (L <> 0)%Z -> hd_error (take L l) = hd_error l.
+Proof.
+  intros. unfold take. destruct (L <? 0)%Z eqn:E1; auto.
+  destruct (Z.of_nat (length l) <=? L)%Z; auto.
+  destruct (Z.to_nat L) eqn:EN; [lia|]. destruct l; reflexivity.
+Qed.
+
+Lemma rev_number_hd : forall ids lo, ids <> [] ->
+  exists id, hd_error (rev (number lo ids)) = Some (mkItem (lo + N.of_nat (length ids)) id).
+Proof.
+  intros ids lo H. destruct (exists_last H) as (r & x & ->).
+  rewrite number_app. cbn [number]. rewrite rev_app_distr. cbn [rev app hd_error].
+  exists x. f_equal. f_equal. rewrite app_length. cbn [length]. lia.
+Qed.
+
+(* the complete cache-mode decision when the cache-empty handler is absent or
+   reports "not populated" *)
+Theorem cache_decision : forall lim uf filt hnd h ch s off ep meta,
+  h_streams h ch = Some s -> wf_stream s -> hnd = HNone \/ hnd = HNo ->
+  snd (sub_cache lim uf filt hnd h ch off ep meta) =
+  match cache_pick lim uf filt s with
+  | Some p => if same_position s off ep then ROk true [] off (s_epoch s)
+              else ROk true [p] off (s_epoch s)
+  | None => if same_position s off ep then ROk true [] off (s_epoch s)
+            else ROk false [] (s_top s) (s_epoch s)
+  end.
+Proof.
+  intros lim uf filt hnd h ch s off ep meta Hs Hwf Hh.
+  destruct (rec_limit_cases lim) as (L0 & _ & _).
+  unfold sub_cache, recover_cache, node_history.
+  set (f := if uf then mkFilter None (rec_limit lim) true else mkFilter None 1 true).
+  assert (Hf : f_since f = None /\ f_rev f = true /\ (f_limit f <> 0)%Z /\
+               f_limit f = (if uf then rec_limit lim else 1%Z)).
+  { unfold f. destruct uf; cbn [f_since f_rev f_limit]; repeat split; auto; discriminate. }
+  destruct Hf as (F1 & F2 & F3 & F4). rewrite F1.
+  pose proof (hub_get_some h ch s f meta Hs) as HG.
+  assert (GI : get_items s f = cache_scanned lim uf s).
+  { unfold get_items, cache_scanned. rewrite F1, F2, <- F4.
+    replace (f_limit f =? 0)%Z with false by lia. unfold sget. cbn [andb].
+    replace (f_limit f =? 0)%Z with false by lia. reflexivity. }
+  rewrite GI in HG.
+  destruct (hub_get h ch f meta) as [h1 o]. cbn [snd] in HG. subst o.
+  unfold cache_pick. set (sc := cache_scanned lim uf s) in *.
+  (* the newest retained item, if any, carries the top offset *)
+  assert (HL : forall l, hd_error sc = Some l -> i_off l = s_top s).
+  { intros l Hl. unfold sc, cache_scanned in Hl. rewrite hd_take in Hl by (destruct uf; lia).
+    destruct Hwf as (Hlen & Hnum). rewrite Hnum in Hl.
+    destruct (map i_id (s_items s)) as [|x r] eqn:EI.
+    - cbn in Hl. discriminate.
+    - destruct (rev_number_hd (x :: r) (s_top s - N.of_nat (length (s_items s)))) as (id & Hid); [congruence|].
+      rewrite Hid in Hl. inversion Hl; subst l. cbn [i_off].
+      assert (length (x :: r) = length (s_items s)) by (rewrite <- EI; apply map_length).
+      cbn [length] in *. lia. }
+  unfold is_cache_recovered, same_position.
+  assert (FIN : forall hh pubs rc,
+     snd (hh : hub, finish true rc (map (to_pub (fun _ => false)) pubs) [] (s_top s) (s_epoch s) off) =
+     finish true rc (map (to_pub (fun _ => false)) pubs) [] (s_top s) (s_epoch s) off) by reflexivity.
+  destruct uf.
+  - (* filters present *)
+    destruct (find (fun it => negb (filt (i_id it))) sc) as [p|] eqn:EF.
+    + destruct (hd_error sc) as [l|] eqn:EH.
+      2:{ destruct sc; [discriminate|discriminate]. }
+      rewrite (HL l eq_refl), N.eqb_refl. cbn [andb].
+      destruct ((0 <? off) && (off =? s_top s) && (ep =? s_epoch s)); cbn [negb];
+        destruct Hh as [-> | ->]; cbn [snd map to_pub];
+        try apply finish_cache_none; destruct p; apply finish_cache_single.
+    + destruct ((0 <? off) && (off =? s_top s) && (ep =? s_epoch s)); destruct Hh as [-> | ->]; cbn [snd map]; apply finish_cache_none.
+  - (* no filters: limit 1 reverse *)
+    destruct (hd_error sc) as [l|] eqn:EH.
+    + rewrite (HL l eq_refl), N.eqb_refl. cbn [andb].
+      destruct ((0 <? off) && (off =? s_top s) && (ep =? s_epoch s)); cbn [negb];
+        destruct Hh as [-> | ->]; cbn [snd map to_pub];
+        try apply finish_cache_none; destruct l; apply finish_cache_single.
+    + destruct ((0 <? off) && (off =? s_top s) && (ep =? s_epoch s)); destruct Hh as [-> | ->]; cbn [snd map]; apply finish_cache_none.
+Qed.
+
+Lemma find_take_full : forall (p : item -> bool) L l x,
+  find p (take L l) = Some x -> find p l = Some x.
+Proof.
+  intros p L l x. unfold take. destruct (L <? 0)%Z; auto.
+  destruct (Z.of_nat (length l) <=? L)%Z; auto.
+  generalize (Z.to_nat L). intros n. revert l.
+  induction n; intros l; cbn [firstn]; [discriminate|].
+  destruct l as [|y l]; [discriminate|]. cbn [find]. destruct (p y); auto.
+Qed.
+
+Definition res_pubs (r : sres) : list item := match r with ROk _ p _ _ => p | RErr _ => [] end.
+
+(* newest retained publication that passes the filters *)
+Definition newest_vis (uf : bool) (filt : N -> bool) (s : stream) : option item :=
+  if uf then find (fun it => negb (filt (i_id it))) (rev (s_items s)) else hd_error (rev (s_items s)).
+
+(* at most the single newest visible publication is delivered *)
+Theorem cache_at_most_newest_visible : forall lim uf filt hnd h ch s off ep meta,
+  reachable h -> h_streams h ch = Some s -> hnd = HNone \/ hnd = HNo ->
+  let pubs := res_pubs (snd (sub_cache lim uf filt hnd h ch off ep meta)) in
+  pubs = [] \/ exists p, pubs = [p] /\ newest_vis uf filt s = Some p.
+Proof.
+  intros lim uf filt hnd h ch s off ep meta Hr Hs Hh pubs.
+  pose proof (reachable_wf h Hr ch s Hs) as Hwf.
+  unfold pubs. rewrite (cache_decision lim uf filt hnd h ch s off ep meta Hs Hwf Hh).
+  destruct (cache_pick lim uf filt s) as [p|] eqn:EP; destruct (same_position s off ep); cbn [res_pubs]; auto.
+  right. exists p. split; auto.
+  unfold cache_pick, newest_vis, cache_scanned in *. destruct uf.
+  - eapply find_take_full; eauto.
+  - rewrite hd_take in EP by lia. exact EP.
+Qed.
+
+(* recovered=true only when the newest publication is present in history or the
+   client holds the current position *)
+Theorem cache_recovered_implies : forall lim uf filt hnd h ch s off ep meta,
+  reachable h -> h_streams h ch = Some s -> hnd = HNone \/ hnd = HNo ->
+  is_recovered (snd (sub_cache lim uf filt hnd h ch off ep meta)) = true ->
+  s_items s <> [] \/ same_position s off ep = true.
+Proof.
+  intros lim uf filt hnd h ch s off ep meta Hr Hs Hh.
+  pose proof (reachable_wf h Hr ch s Hs) as Hwf.
+  rewrite (cache_decision lim uf filt hnd h ch s off ep meta Hs Hwf Hh).
+  destruct (same_position s off ep); [auto|].
+  destruct (cache_pick lim uf filt s) as [p|] eqn:EP; [|discriminate].
+  intros _. left. intros E. unfold cache_pick, cache_scanned in EP. rewrite E in EP. cbn [rev] in EP.
+  rewrite take_nil in EP. destruct uf; discriminate.
+Qed.
+
+(* without tags filters the report is exact: recovered=true iff the newest
+   publication is present in history or the client holds the position *)
+Theorem cache_recovered_iff_unfiltered : forall lim filt hnd h ch s off ep meta,
+  reachable h -> h_streams h ch = Some s -> hnd = HNone \/ hnd = HNo ->
+  (is_recovered (snd (sub_cache lim false filt hnd h ch off ep meta)) = true <->
+   s_items s <> [] \/ same_position s off ep = true).
+Proof.
+  intros lim filt hnd h ch s off ep meta Hr Hs Hh. split.
+  - apply cache_recovered_implies; auto.
+  - pose proof (reachable_wf h Hr ch s Hs) as Hwf.
+    rewrite (cache_decision lim false filt hnd h ch s off ep meta Hs Hwf Hh).
+    intros [H|H].
+    + unfold cache_pick, cache_scanned. rewrite hd_take by lia.
+      destruct (rev (s_items s)) as [|x r] eqn:ER.
+      * exfalso. apply H. apply (f_equal (@rev item)) in ER. rewrite rev_involutive in ER. exact ER.
+      * cbn [hd_error]. destruct (same_position s off ep); reflexivity.
+    + rewrite H. destruct (cache_pick lim false filt s); reflexivity.
+Qed.
+
+(* with tags filters: recovered=true iff a scanned publication is visible or the
+   client holds the position *)
+Theorem cache_recovered_iff_filtered : forall lim filt hnd h ch s off ep meta,
+  reachable h -> h_streams h ch = Some s -> hnd = HNone \/ hnd = HNo ->
+  (is_recovered (snd (sub_cache lim true filt hnd h ch off ep meta)) = true <->
+   (exists p, find (fun it => negb (filt (i_id it))) (cache_scanned lim true s) = Some p) \/
+   same_position s off ep = true).
+Proof.
+  intros lim filt hnd h ch s off ep meta Hr Hs Hh.
+  pose proof (reachable_wf h Hr ch s Hs) as Hwf.
+  rewrite (cache_decision lim true filt hnd h ch s off ep meta Hs Hwf Hh).
+  unfold cache_pick.
+  destruct (find (fun it => negb (filt (i_id it))) (cache_scanned lim true s)) as [p|];
+    destruct (same_position s off ep); cbn [is_recovered]; split; intros H; auto;
+    try (left; eexists; reflexivity); try discriminate.
+  destruct H as [(p & X)|X]; discriminate.
+Qed.
